@@ -316,3 +316,9 @@ func UnterminatedStringQuirk(doc []byte) bool {
 	rest := n - start - 1
 	return rest >= 32 && (rest%32 == 0 || rest%32 == 1)
 }
+
+// CorrectUTF8InStrings returns the JSON text with every invalid UTF-8 byte
+// replaced by the six bytes �... no: by U+FFFD encoded as UTF-8.
+func CorrectUTF8InStrings(doc []byte) []byte {
+	return CorrectUTF8(doc, []byte("\xef\xbf\xbd"))
+}
